@@ -475,6 +475,41 @@ func (vc *VC) applyContractX(fr *Frame, spec *FuncSpec, name string, sig *types.
 	if contains(spec.LockHeld, "*") && !vc.lockChecksOff && len(vc.st.held) == 0 {
 		vc.oblige("lock", "callee-needs-lock:"+name, "false", pos, name+" must be called with the protecting lock held")
 	}
+	// A callee whose contract speaks about locked(...) acquires a lock inside:
+	// its action starts from a state in which the lock-protected locations are
+	// whatever the other goroutines left there (invariant assumed).
+	if specUsesLocked(spec) && len(args) > 0 {
+		for _, ls := range vc.p.db.Locks {
+			rt := args[0].Ty
+			if p, ok := rt.Underlying().(*types.Pointer); ok {
+				rt = p.Elem()
+			}
+			if namedKey(rt) != ls.TypeKey {
+				continue
+			}
+			for _, m := range vc.lockProtected(ls, args[0]) {
+				vc.havocLocNoFrame(m)
+			}
+			lenv := vc.lockEnv(ls, args[0], pre)
+			for _, inv := range ls.Invariant {
+				if t, ok := vc.evalBool(inv, lenv); ok {
+					vc.assume(t)
+				}
+			}
+			if fr.spec != nil && len(fr.spec.Rely) > 0 && vc.top != nil {
+				renv := vc.specEnv(vc.top, nil)
+				renv.old = pre
+				for _, rc := range vc.top.spec.Rely {
+					if t, ok := vc.evalBool(rc, renv); ok {
+						vc.assume(t)
+						vc.used.Assumes["rely (ownership) in "+shortFuncName(vc.top.fn)+": "+rc.Src] = true
+					}
+				}
+			}
+		}
+		vc.lockedSt = vc.st.clone()
+		env.st = vc.st
+	}
 	// frame
 	if spec.ModAll {
 		vc.havocAll("callee " + name + " declares modifies *")
@@ -784,6 +819,7 @@ func (vc *VC) lockOp(fr *Frame, recv *Val, suffix []string, op string, pos token
 		if vc.st.held[id] {
 			vc.oblige("lock", "not-held", "false", pos, "lock acquired while already held (self-deadlock)")
 		}
+		preLock := vc.st.clone()
 		for _, m := range vc.lockProtected(ls, self) {
 			vc.havocLocNoFrame(m)
 		}
@@ -793,7 +829,19 @@ func (vc *VC) lockOp(fr *Frame, recv *Val, suffix []string, op string, pos token
 				vc.assume(t)
 			}
 		}
+		// rely: what the other goroutines leave alone while this one waits
+		if top := vc.top; top != nil && top.spec != nil && len(top.spec.Rely) > 0 {
+			renv := vc.specEnv(top, nil)
+			renv.old = preLock
+			for _, rc := range top.spec.Rely {
+				if t, ok := vc.evalBool(rc, renv); ok {
+					vc.assume(t)
+					vc.used.Assumes["rely (ownership) in "+shortFuncName(top.fn)+": "+rc.Src] = true
+				}
+			}
+		}
 		vc.st.held[id] = true
+		vc.lockedSt = vc.st.clone()
 		if op == "rlock" {
 			vc.st.held[id+"#r"] = true
 		}
@@ -1175,4 +1223,33 @@ func sortedBoolKeys(m map[string]bool) []string {
 	}
 	sort.Strings(ks)
 	return ks
+}
+
+// specUsesLocked reports whether a contract mentions locked(...).
+func specUsesLocked(spec *FuncSpec) bool {
+	if spec.usesLocked != 0 {
+		return spec.usesLocked > 0
+	}
+	spec.usesLocked = -1
+	var has func(e *SExpr) bool
+	has = func(e *SExpr) bool {
+		if e == nil {
+			return false
+		}
+		if e.Op == "call" && e.Args[0].Op == "ident" && e.Args[0].Name == "locked" {
+			return true
+		}
+		for _, a := range e.Args {
+			if has(a) {
+				return true
+			}
+		}
+		return false
+	}
+	for _, c := range spec.Ensures {
+		if has(c.Expr) {
+			spec.usesLocked = 1
+		}
+	}
+	return spec.usesLocked > 0
 }
